@@ -249,28 +249,50 @@ public:
 
         QString pattern;
         if (suffix.isEmpty()) {
-            pattern = QStringLiteral("^%1\\.\\d{4}-\\d{2}-\\d{2}\\.\\d+(\\.gz)?$")
+            pattern = QStringLiteral("^%1\\.(\\d{4}-\\d{2}-\\d{2})\\.(\\d+)(\\.gz)?$")
                           .arg(QRegularExpression::escape(baseName));
         } else {
-            pattern = QStringLiteral("^%1\\.\\d{4}-\\d{2}-\\d{2}\\.\\d+\\.%2(\\.gz)?$")
+            pattern = QStringLiteral("^%1\\.(\\d{4}-\\d{2}-\\d{2})\\.(\\d+)\\.%2(\\.gz)?$")
                           .arg(QRegularExpression::escape(baseName),
                                QRegularExpression::escape(suffix));
         }
 
+        struct RotatedFile
+        {
+            QString path;
+            QDateTime lastModified;
+            QString date;
+            int index;
+        };
+
         auto re = QRegularExpression(pattern);
         auto dir = QDir(baseDir());
-        auto result = QStringList();
+        auto files = QList<RotatedFile>();
 
         const auto entries = dir.entryList(QDir::Files, QDir::Name);
         for (const QString &entry : entries) {
-            if (re.match(entry).hasMatch()) {
-                result.append(dir.filePath(entry));
+            const auto match = re.match(entry);
+            if (match.hasMatch()) {
+                const auto path = dir.filePath(entry);
+                files.append({ path, QFileInfo(path).lastModified(), match.captured(1),
+                               match.captured(2).toInt() });
             }
         }
 
-        std::sort(result.begin(), result.end(), [](const QString &a, const QString &b) {
-            return QFileInfo(a).lastModified() < QFileInfo(b).lastModified();
+        // Oldest first. Several rotations may share one file-system timestamp tick, so ties are
+        // broken by the date and the (numeric) rotation index carried in the name
+        std::sort(files.begin(), files.end(), [](const RotatedFile &a, const RotatedFile &b) {
+            if (a.lastModified != b.lastModified)
+                return a.lastModified < b.lastModified;
+            if (a.date != b.date)
+                return a.date < b.date;
+            return a.index < b.index;
         });
+
+        auto result = QStringList();
+        for (const auto &file : std::as_const(files)) {
+            result.append(file.path);
+        }
 
         return result;
     }
